@@ -38,6 +38,25 @@ type KillCase struct {
 	Scenario
 	K    int          `json:"k"`
 	Call *ptkill.Call `json:"call,omitempty"`
+	// what the APPLICATION does between the kill and the restart ("" = nothing), see scn.runApp
+	App      string `json:"app,omitempty"`
+	NoInsert bool   `json:"noinsert,omitempty"` // restart: first sync without a fresh application commit
+}
+
+// appVariant: seeded choice of the application's activity while litestream is dead.
+func appVariant(r *hx.Rand) (string, bool) {
+	noins := r.Chance(50)
+	if r.Chance(20) {
+		return "", noins
+	}
+	pre := []int{0, 2, 8, 20}[r.Intn(4)]
+	mode := []string{"none", "PASSIVE", "PASSIVE", "FULL", "RESTART", "RESTART", "TRUNCATE", "TRUNCATE"}[r.Intn(8)]
+	post := []int{0, 1, 1, 3, 15}[r.Intn(5)]
+	cl := 0
+	if r.Chance(30) {
+		cl = 1
+	}
+	return fmt.Sprintf("pre=%d,mode=%s,post=%d,close=%d", pre, mode, post, cl), noins
 }
 
 func childArgv(sc Scenario, root, phase string, acked int) []string {
@@ -110,6 +129,7 @@ type outcome struct {
 	raw       string
 	skippedFollowOutput bool
 	followDetail string
+	appOut string
 	err       error
 }
 
@@ -143,8 +163,25 @@ func marksOf(calls []ptkill.Call) (acked int, curOp string, followActive bool) {
 	return
 }
 
-func runRecover(sc Scenario, root string, acked int) (recoverLine, string, error) {
-	argv := childArgv(sc, root, "recover", acked)
+func runApp(sc Scenario, root, spec string, seed uint64) string {
+	argv := append(childArgv(Scenario{Name: sc.Name, Seed: seed, Rounds: sc.Rounds}, root, "app", 0), "-app", spec)
+	cmd := exec.Command(argv[0], argv[1:]...)
+	done := make(chan struct{})
+	var out []byte
+	go func() { out, _ = cmd.CombinedOutput(); close(done) }()
+	select {
+	case <-done:
+	case <-time.After(60 * time.Second):
+		if cmd.Process != nil {
+			cmd.Process.Kill()
+		}
+		<-done
+	}
+	return tailS(string(out), 300)
+}
+
+func runRecover(sc Scenario, root string, acked int, extra ...string) (recoverLine, string, error) {
+	argv := append(childArgv(sc, root, "recover", acked), extra...)
 	cmd := exec.Command(argv[0], argv[1:]...)
 	var out, errb bytes.Buffer
 	cmd.Stdout, cmd.Stderr = &out, &errb
@@ -210,7 +247,14 @@ func killOnce(kc KillCase) outcome {
 	if !res.Killed {
 		return oc
 	}
-	rec, raw, err := runRecover(kc.Scenario, root, oc.acked)
+	var extra []string
+	if kc.NoInsert {
+		extra = append(extra, "-noinsert")
+	}
+	if kc.App != "" {
+		oc.appOut = runApp(kc.Scenario, root, kc.App, kc.Seed+uint64(kc.K))
+	}
+	rec, raw, err := runRecover(kc.Scenario, root, oc.acked, extra...)
 	if err != nil {
 		oc.err = err
 		return oc
@@ -223,7 +267,7 @@ func killOnce(kc KillCase) outcome {
 		for _, f := range []string{"restored.db", "restored.db-wal", "restored.db-shm"} {
 			os.Remove(filepath.Join(root, "out", f))
 		}
-		rec, raw, err = runRecover(kc.Scenario, root, oc.acked)
+		rec, raw, err = runRecover(kc.Scenario, root, oc.acked, extra...)
 		if err != nil {
 			oc.err = err
 			return oc
@@ -239,7 +283,7 @@ func killOnce(kc KillCase) outcome {
 func scenarios(o *hx.Opts) []Scenario {
 	r := hx.NewRand(o.Seed*7919 + 3)
 	var out []Scenario
-	for _, n := range []string{"basic", "compact", "restore", "follow", "behind", "reopen", "restorev3"} {
+	for _, n := range []string{"basic", "compact", "restore", "follow", "behind", "reopen", "restorev3", "pinned", "ckptbusy"} {
 		out = append(out, Scenario{Name: n, Seed: r.Uint64() % 1000000, Rounds: 2 + r.Intn(2)})
 	}
 	return out
@@ -247,7 +291,7 @@ func scenarios(o *hx.Opts) []Scenario {
 
 // pickKills: thorough = every k; quick = every rename/unlink on litestream-owned names and its neighbours
 // (capped by seeded sampling) plus a seeded sample of the rest.
-func pickKills(o *hx.Opts, root string, rec *ptkill.Result, r *hx.Rand) []int {
+func pickKills(o *hx.Opts, root string, rec *ptkill.Result, r *hx.Rand, ckptWindow map[int]bool) []int {
 	n := rec.Total
 	if o.Tier == "thorough" {
 		ks := make([]int, n)
@@ -261,6 +305,9 @@ func pickKills(o *hx.Opts, root string, rec *ptkill.Result, r *hx.Rand) []int {
 	for _, c := range rec.Calls {
 		if c.Seq == 0 {
 			continue
+		}
+		if ckptWindow[c.Seq] {
+			must[c.Seq] = true
 		}
 		cl := pathClass(root, c.Path)
 		isRU := strings.HasPrefix(c.Sys, "rename") || strings.HasPrefix(c.Sys, "unlink")
@@ -277,7 +324,7 @@ func pickKills(o *hx.Opts, root string, rec *ptkill.Result, r *hx.Rand) []int {
 		ms = append(ms, k)
 	}
 	sort.Ints(ms)
-	capMust, nOther := 24, 10
+	capMust, nOther := 20, 8
 	for len(ms) > capMust {
 		i := r.Intn(len(ms))
 		ms = append(ms[:i], ms[i+1:]...)
@@ -315,7 +362,7 @@ func (g *engine) record(oc outcome, root string) {
 	if kc.Call != nil {
 		desc = kc.Call.Sys + ":" + pathClassAny(kc.Call.Path)
 	}
-	g.res.Case(fmt.Sprintf("%s/%d/%d/%d", kc.Name, kc.Seed, kc.Rounds, kc.K), oc.killed)
+	g.res.Case(fmt.Sprintf("%s/%d/%d/%d/%s/%v", kc.Name, kc.Seed, kc.Rounds, kc.K, kc.App, kc.NoInsert), oc.killed)
 	if !oc.killed {
 		g.res.Count("kill-point-not-reached")
 		return
@@ -332,14 +379,23 @@ func (g *engine) record(oc outcome, root string) {
 			// transaction in place, without a journal; C16 shows that a restarted follower heals the file).
 			g.res.AddFinding("violation", "C03/follow-inplace-output-malformed",
 				fmt.Sprintf("scenario %s killed before call %d (%s) while the follower applies pages in place: the published restore output is not a whole database: %s", kc.Name, kc.K, describe(kc.Call), tailS(oc.followDetail, 200)),
-				map[string]any{"scenario": kc.Scenario, "k": kc.K, "call": kc.Call, "detail": oc.followDetail})
+				map[string]any{"scenario": kc.Name, "seed": kc.Seed, "rounds": kc.Rounds, "k": kc.K, "call": kc.Call, "detail": oc.followDetail})
 		}
 		g.res.Count("follow-inplace-output-malformed")
 	}
-	payload := map[string]any{"scenario": kc.Scenario, "k": kc.K, "call": kc.Call, "acked": oc.acked, "op": oc.opAtKill, "recover": oc.rec, "log": tailS(oc.raw, 1500)}
+	if kc.App != "" {
+		g.res.Count("app-while-down:" + strings.SplitN(strings.SplitN(kc.App, "mode=", 2)[1], ",", 2)[0])
+	} else {
+		g.res.Count("app-while-down:idle")
+	}
+	payload := map[string]any{"scenario": kc.Name, "seed": kc.Seed, "rounds": kc.Rounds, "k": kc.K, "app": kc.App, "noinsert": kc.NoInsert, "call": kc.Call, "acked": oc.acked, "op": oc.opAtKill, "recover": oc.rec, "app_out": oc.appOut, "log": tailS(oc.raw, 1500)}
 	if oc.rec.Recover == "fail" {
-		g.res.AddFinding("violation", "C03/"+oc.rec.Stage+"/"+desc,
-			fmt.Sprintf("scenario %s killed before call %d (%s, during %q): after restart stage %s fails: %s", kc.Name, kc.K, describe(kc.Call), oc.opAtKill, oc.rec.Stage, tailS(oc.rec.Detail, 300)), payload)
+		sig := "C03/" + oc.rec.Stage + "/" + desc
+		if kc.App != "" { // what matters is what the application did while litestream was down, not the kill point
+			sig = "C03/" + oc.rec.Stage + "/app-while-down:" + strings.SplitN(strings.SplitN(kc.App, "mode=", 2)[1], ",", 2)[0]
+		}
+		g.res.AddFinding("violation", sig,
+			fmt.Sprintf("scenario %s killed before call %d (%s, during %q), application while down: %q, then restart: stage %s fails: %s", kc.Name, kc.K, describe(kc.Call), oc.opAtKill, kc.App, oc.rec.Stage, tailS(oc.rec.Detail, 300)), payload)
 	} else if len(oc.tmpLeft) > 0 {
 		payload["tmp_left"] = oc.tmpLeft
 		g.res.AddFinding("violation", "C03/tmp-left-after-open",
@@ -449,7 +505,7 @@ func main() {
 	}
 	o := hx.ParseFlags("C03")
 	res := hx.NewResult(o, "c03: kill engine (ptrace supervisor, SIGKILL before the k-th mutating call) + restart oracle; recorded traces judged by Lean killOK")
-	res.Rule = "scenarios {basic, compact(+snapshot, retention), restore, follow, behind, reopen, restorev3}; one case = (scenario, seed, rounds, k): the child is killed immediately before its k-th file-system-mutating call under the scenario root (openat O_CREAT/O_TRUNC, write*, ftruncate, rename*, unlink*, mkdir*, copy_file_range...), then restarted; quick: every rename/unlink on litestream-owned names with its neighbours (seeded cap 24 per scenario) + 10 seeded others per scenario; thorough: every k. non-trivial = the kill point was reached"
+	res.Rule = "scenarios {basic, compact(+snapshot, retention), restore, follow, behind, reopen, restorev3, pinned (reader blocks WAL restart), ckptbusy (commits during litestream's checkpoints)}; one case = (scenario, seed, rounds, k): the child is killed immediately before its k-th file-system-mutating call under the scenario root (openat O_CREAT/O_TRUNC, write*, ftruncate, rename*, unlink*, mkdir*, copy_file_range...), then restarted; quick: every rename/unlink on litestream-owned names with its neighbours (seeded cap 20 per scenario, always every open of a staging file inside litestream's own checkpoint) + 8 seeded others per scenario; thorough: every k. Between the kill and the restart the application keeps working in its own process (seeded: commits, wal_checkpoint PASSIVE/FULL/RESTART/TRUNCATE, commits, connection closed or left open), and the restart's first sync runs with or without a fresh commit. non-trivial = the kill point was reached"
 	g := &engine{o: o, res: res}
 	if o.Replay != "" {
 		os.Exit(g.replay())
@@ -494,8 +550,32 @@ func main() {
 				res.Count("call:" + c.Sys + ":" + pathClass(root, c.Path))
 			}
 		}
-		for _, k := range pickKills(o, root, rec, r.Fork()) {
-			cases = append(cases, KillCase{Scenario: sc, K: k})
+		// kill points inside litestream's own checkpoint: immediately before it stages an LTX file
+		ckpt := map[int]bool{}
+		cur := ""
+		for _, c := range rec.Calls {
+			if c.Sys == "mark" {
+				f := strings.Split(c.Path, ".")
+				if f[0] == "begin" && len(f) > 2 {
+					cur = f[2]
+				} else if f[0] == "ok" || f[0] == "fail" {
+					cur = ""
+				}
+				continue
+			}
+			if cur == "checkpoint" && strings.HasPrefix(c.Sys, "open") && pathClass(root, c.Path) == "meta-tmp" {
+				ckpt[c.Seq] = true
+			}
+		}
+		res.Distribution["checkpoint-window-kill-points:"+sc.Name] = len(ckpt)
+		vr := r.Fork()
+		for _, k := range pickKills(o, root, rec, r.Fork(), ckpt) {
+			app, noins := appVariant(vr)
+			cases = append(cases, KillCase{Scenario: sc, K: k, App: app, NoInsert: noins})
+			if ckpt[k] && (app != "" || !noins) {
+				// the state the checkpoint itself left (with whatever the application committed meanwhile), untouched
+				cases = append(cases, KillCase{Scenario: sc, K: k, NoInsert: true})
+			}
 		}
 		cleanup()
 	}
@@ -547,7 +627,7 @@ func (g *engine) replay() int {
 		kc := w.Replay
 		kc.K = k
 		oc := killOnce(kc)
-		fmt.Printf("k=%d killed=%v before=%s acked=%d recover=%s stage=%s detail=%s tmp_left=%v follow_output=%q\n", k, oc.killed, describe(oc.kc.Call), oc.acked, oc.rec.Recover, oc.rec.Stage, tailS(oc.rec.Detail, 300), oc.tmpLeft, oc.followDetail)
+		fmt.Printf("k=%d app=%q noinsert=%v killed=%v before=%s acked=%d recover=%s stage=%s detail=%s tmp_left=%v follow_output=%q\n", k, kc.App, kc.NoInsert, oc.killed, describe(oc.kc.Call), oc.acked, oc.rec.Recover, oc.rec.Stage, tailS(oc.rec.Detail, 300), oc.tmpLeft, oc.followDetail)
 		if oc.killed && (oc.rec.Recover == "fail" || len(oc.tmpLeft) > 0 || oc.followDetail != "") {
 			fails++
 		}
